@@ -192,7 +192,27 @@ func c05ChurnGen(rng *rand.Rand, m *model.Model, keys []string) []string {
 	case x < 38:
 		return []string{"SMISMEMBER", k, mem(), mem(), mem()}
 	case x < 39:
+		if rng.Intn(2) == 0 {
+			// random members, counts chosen around the current cardinality (the selection has different strategies for
+			// small and large fractions of the set)
+			return []string{"SRANDMEMBER", k, countAround(rng, modelCard(m, k))}
+		}
 		return []string{"COPY", k, "cd", "REPLACE"}
 	}
 	return []string{"SCARD", k}
+}
+
+// modelCard: number of elements the model holds under the key in database 0 (0 if missing).
+func modelCard(m *model.Model, k string) int {
+	o := m.DB[0][k]
+	if o == nil {
+		return 0
+	}
+	return len(o.L) + len(o.H) + len(o.Set)
+}
+
+// countAround: a count argument near the size n of the collection: n, just below, a large and a small fraction, beyond, negated.
+func countAround(rng *rand.Rand, n int) string {
+	c := []int{n, n - 1, n - 2, n - 3, n * 9 / 10, n * 7 / 8, n / 2, n + 1, n + 7, 2, -n, -n - 3, -2 * n}[rng.Intn(13)]
+	return strconv.Itoa(c)
 }
